@@ -279,4 +279,48 @@ def specTour (v : Veh) (acts : List RAct) (t : WTour) : List String :=
   let c9 := if t.stops.all (fun s => !s.activities.isEmpty) then [] else ["a stop without activities"]
   c1 ++ c2 ++ c3 ++ c4 ++ c5 ++ c6 ++ c7 ++ c8 ++ c9
 
+/-! ## tours with required breaks (reserved times): clauses on the written tour only
+
+`insert_reserved_times_as_breaks` (break_writer.rs) is not modelled; a tour of a vehicle with a required break is judged by what
+a reader can check on the document: the timing entries add up, the duration is the span of the stops, the cost replays, the break
+entry is the sum of the reported break activities, and every break lies inside the tour's time span. -/
+
+structure BAct where
+  type : String
+  time : Option (Int × Int)
+deriving Repr
+
+structure BStop where
+  arrival : Int
+  departure : Int
+  acts : List BAct
+deriving Repr
+
+structure BTour where
+  stops : List BStop
+  stat : WStat
+deriving Repr
+
+def BTour.breaks (t : BTour) : List (Int × Int) :=
+  t.stops.flatMap (fun s => (s.acts.filter (fun a => a.type == "break")).map (fun a => a.time.getD (s.arrival, s.departure)))
+
+def specBreakTour (v : Veh) (t : BTour) : List String :=
+  match t.stops.head?, t.stops.getLast? with
+  | some a, some b =>
+    let c1 := if t.stat.driving + t.stat.serving + t.stat.waiting + t.stat.breakT == t.stat.duration then []
+              else ["driving+serving+waiting+break does not add up to duration"]
+    -- the tour lasts from the end of the departure activity (a job or a break at the depot keeps the first stop open)
+    let dep0 := match a.acts.head? with
+      | some x => if x.type == "departure" then (x.time.map (·.2)).getD a.departure else a.departure
+      | none => a.departure
+    let c2 := if t.stat.duration == b.departure - dep0 then [] else ["duration is not last departure - first departure"]
+    let c3 := if !uniformTimeCost v || t.stat.cost == v.fixed + t.stat.distance * v.cd + t.stat.duration * v.ct then []
+              else ["cost is not fixed + distance*cd + duration*ct"]
+    let c4 := if t.stat.breakT == (t.breaks.map (fun x => x.2 - x.1)).foldl (· + ·) 0 then []
+              else ["break time is not the sum of the reported break activities"]
+    let c5 := if t.breaks.all (fun x => decide (dep0 ≤ x.1 ∧ x.1 ≤ x.2 ∧ x.2 ≤ b.departure)) then []
+              else ["a break lies outside the time span of the tour"]
+    c1 ++ c2 ++ c3 ++ c4 ++ c5
+  | _, _ => ["empty tour"]
+
 end C03W
